@@ -15,6 +15,7 @@
 from vlib.pipeline import Case
 from vlib import gen
 from props import factor_common as fc
+from props import sched_trace as strace
 
 PID = "C04"
 GEN = ["primality", "sched"]
@@ -22,7 +23,9 @@ LEAN = ["Ymq.Props.C04", "Ymq.Props.C04Relations", "Ymq.Props.C04Shape"]
 AUDIT = "Ymq.Audit.C04"
 THEOREMS = ["Ymq.C04.sched_inv", "Ymq.C04.sched_done_monotone", "Ymq.C04.sched_bounded_work", "Ymq.C04.sched_progress",
             "Ymq.C04.sched_relations_valid", "Ymq.C04.sched_no_panic",
-            "Ymq.C04Shape.sched_inv_shape", "Ymq.C04Shape.sched_inv_any_programs", "Ymq.C04Shape.shape_adds_exactly", "Ymq.C04Shape.source_shapes_ok"]
+            "Ymq.C04Shape.sched_inv_shape", "Ymq.C04Shape.sched_inv_any_programs", "Ymq.C04Shape.shape_adds_exactly", "Ymq.C04Shape.source_shapes_ok",
+            "Ymq.C04Shape.qs_adds_exactly", "Ymq.C04Shape.qs_block_interleaving", "Ymq.C04Shape.ecm_flag_sound",
+            "Ymq.C04Shape.source_named_ok", "Ymq.C04Shape.source_fork_ok", "Ymq.C04Shape.source_ecm_unit_ok"]
 PROFILES = ["release", "chk"]
 TIMEOUT = 180.0
 RULE = ("boundary family first, in both tiers: pools on siqs/mpqs/qs at exactly 65 bits, siqs at 129, ecm at 65..500 and auto at 65..500 bits "
@@ -31,7 +34,13 @@ RULE = ("boundary family first, in both tiers: pools on siqs/mpqs/qs at exactly 
         "relation-store lock acquisition and completion check; inputs of 60-140 bits (small ones finish within a few polynomials, "
         "so workers contend on completion; larger ones use single and forced double large primes); the write-lock order of all "
         "adds is recorded; non-trivial = a run in which at least two threads added relations; distinct by request line")
-MODELLED = ["the worker programs of siqs() and mpqs(), thread-pool and sequential branch: the order of abort polls, flag reads, adds "
+MODELLED = ["second generation (same translator): classgroup() (two more shapes in the generated list), classical QS (ForkShape: two adding arms "
+            "joined, then poll, completion decision, exit) and one ECM curve as a unit (entry test, report + flag); qs_adds_exactly / "
+            "qs_block_interleaving (per large block pair exactly the two arms' relations, interleaved in lock order), ecm_flag_sound (flag set "
+            "=> something reported by a curve of the input), source_named_ok / source_fork_ok / source_ecm_unit_ok (decide on the generated data); "
+            "tie: op sched_trace (real qsieve / ecm / classgroup called directly, polls and adds-between-polls recorded) against op sched_model "
+            "(the generated shapes run with the model's step function), with and without pools",
+            "the worker programs of siqs() and mpqs(), thread-pool and sequential branch: the order of abort polls, flag reads, adds "
             "and completion decisions inside a work unit is read from src/siqs.rs and src/mpqs.rs by translate/sched.py on every run "
             "(Ymq/Gen/SchedShape.lean); sched_inv_shape holds for every shape, shape_adds_exactly / source_shapes_ok are obligations on "
             "the generated data",
@@ -81,6 +90,10 @@ def boundary_cases(rng, tier):
 def cases(tier, rng, extended=False):
     quick = tier == "quick"
     yield from boundary_cases(_fork(rng, "C04-boundary"), tier)
+    # protocol traces of classical QS / ECM / class groups called directly, with and without pools (props/sched_trace.py):
+    # the Lean model built from the generated shapes must reproduce every deterministic trace (K, through followup)
+    yield from strace.cases(_fork(rng, "C04-trace"), tier, ["-", "0", "1"] if quick else ["-", "0", "1", "4"],
+                            {"qs": [0, 2, 4], "ecm": [0, 2, 4], "cg": [0, 2, 3]}, "trace")
     reps = 4 if quick else 20
     if extended:
         reps *= 3
@@ -138,6 +151,8 @@ def segments(hist):
 
 
 def oracle(case, ans):
+    if case.op == "sched_trace":
+        return strace.oracle(case, ans)
     res, trace, hist = split_answer(ans)
     n = int(case.args[0])
     expected = sorted(int(x) for x in case.tag.split(","))
@@ -172,6 +187,8 @@ def oracle(case, ans):
 
 
 def followup(case, ans):
+    if case.op == "sched_trace":
+        return strace.model_requests(case, ans)
     res, trace, hist = split_answer(ans)
     out = []
     if trace is not None and (res.startswith("ok") or res == "failure"):
@@ -216,6 +233,8 @@ case_answers = {}
 
 
 def klass(case, ans):
+    if case.op == "sched_trace":
+        return strace.klass(case, ans)
     res, trace, hist = split_answer(ans)
     case_answers[case.line] = ans
     tids = set()
@@ -225,6 +244,8 @@ def klass(case, ans):
 
 
 def nontrivial(case, ans):
+    if case.op == "sched_trace":
+        return strace.nontrivial(case, ans)
     res, trace, hist = split_answer(ans)
     tids = set()
     for seg in segments(hist):
